@@ -290,11 +290,12 @@ def p_timing(t):
 
 
 def b_timing(t):
-    from unified_planning.model.timing import StartTiming, EndTiming, GlobalStartTiming, GlobalEndTiming
+    from unified_planning.model.timing import Timing, Timepoint, TimepointKind
 
     d = val_to_fraction(t["delay"])
     d = int(d) if d.denominator == 1 else d
-    return {"start": StartTiming, "end": EndTiming, "gstart": GlobalStartTiming, "gend": GlobalEndTiming}[t["from"]](d)
+    kind = {"start": TimepointKind.START, "end": TimepointKind.END, "gstart": TimepointKind.GLOBAL_START, "gend": TimepointKind.GLOBAL_END}[t["from"]]
+    return Timing(d, Timepoint(kind))
 
 
 def p_interval(iv):
